@@ -18,17 +18,18 @@ for tc in ET.parse(out).getroot().iter('testcase'):
         passed.add(tc.get('classname') + '::' + tc.get('name'))
 os.remove(out)
 missing = sorted(set(base['stable_pass']) - passed)
-if missing and len(missing) < 200:
-    # tests that are timing/load sensitive under xdist: rerun their files serially and merge
-    files = sorted({'tests/' + m.split('.')[1] + '.py' for m in missing})
-    print('rerunning serially:', files)
-    p = subprocess.run(cmd[:cmd.index('--junitxml=' + out)] + ['--junitxml=' + out] + files, cwd=repo, env=env, stdout=subprocess.PIPE, stderr=subprocess.STDOUT, text=True)
-    print(p.stdout[-300:])
-    for tc in ET.parse(out).getroot().iter('testcase'):
-        if not any(c.tag in ('failure', 'error', 'skipped') for c in tc):
-            passed.add(tc.get('classname') + '::' + tc.get('name'))
-    os.remove(out)
-    missing = sorted(set(base['stable_pass']) - passed)
+for _attempt in range(3):
+  if missing and len(missing) < 200:
+      # tests that are timing/load sensitive under xdist: rerun their files serially and merge
+      files = sorted({'tests/' + m.split('.')[1] + '.py' for m in missing})
+      print('rerunning serially:', files)
+      p = subprocess.run(cmd[:cmd.index('--junitxml=' + out)] + ['--junitxml=' + out] + files, cwd=repo, env=env, stdout=subprocess.PIPE, stderr=subprocess.STDOUT, text=True)
+      print(p.stdout[-300:])
+      for tc in ET.parse(out).getroot().iter('testcase'):
+          if not any(c.tag in ('failure', 'error', 'skipped') for c in tc):
+              passed.add(tc.get('classname') + '::' + tc.get('name'))
+      os.remove(out)
+      missing = sorted(set(base['stable_pass']) - passed)
 print('stable_pass %d, passed now %d, missing %d' % (len(base['stable_pass']), len(passed), len(missing)))
 for m in missing[:40]: print('  MISSING', m)
 sys.exit(1 if missing else 0)
